@@ -199,6 +199,9 @@ func (c *Conn) NumOut() int {
 	return len(c.out)
 }
 
+// Idle reports whether the serve loop is parked in ReadFrom with nothing queued (or the socket is closed).
+func (c *Conn) Idle() bool { return c.idle() }
+
 func (c *Conn) idle() bool {
 	c.mu.Lock()
 	defer c.mu.Unlock()
